@@ -114,12 +114,12 @@ const EXTRA_PATHS: &[&str] = &[
 ];
 
 fn gen_content(rng: &mut Rng, hist: &mut Report) -> Vec<u8> {
-    let heads = ["", "use foo::bar;\nfn hand() {}\n", "// c\r\n", "#![allow(dead_code)]\npub fn default_http_client() -> Client { todo!() }\n", "mod x;\n\n\n", "// caf\u{e9} \u{1F600}\n"];
+    let heads = ["", "use foo::bar;\nfn hand() {}\n", "// c\r\n", "#![allow(dead_code)]\npub fn default_http_client() -> Client { todo!() }\n", "mod x;\n\n\n", "// caf\u{e9} \u{1F600}\n", "// \u{130}smail \u{130}nan wrote this\n", "// HAUPTSTRA\u{1E9E}E 1, \u{212A}elvin\n"];
     let tails = ["", "\nfn old() {}\n", " trailing on same line\nmore\n", "\r\nold\r\n", "\n", " */ fn x() {}"];
     let head = *rng.pick(&heads);
     let tail = *rng.pick(&tails);
     let long: String = (0..40).map(|i| format!("// licence line {i}\n")).collect();
-    let kind = rng.below(17);
+    let kind = rng.below(18);
     // a directive that straddles a multiple of 8 KiB (readers that work in blocks)
     let boundary_pad = |rng: &mut Rng| -> String { let k = 1 + rng.below(2); let j = 1 + rng.below(15); format!("/*{}*/", "x".repeat(8192 * k - j - 4)) };
     let (name, body): (&str, String) = match kind {
@@ -138,7 +138,9 @@ fn gen_content(rng: &mut Rng, hist: &mut Report) -> Vec<u8> {
         13 => ("static_after_code", format!("{head}fn a() {{}}\n{long}/* {STATIC} */")),
         14 => ("empty", String::new()),
         15 => { let pad = boundary_pad(rng); ("static_at_block_boundary", format!("{pad}{STATIC}\n{tail}")) }
-        _ => { let pad = boundary_pad(rng); ("after_at_block_boundary", format!("{pad}{AFTER}\n{tail}")) }
+        16 => { let pad = boundary_pad(rng); ("after_at_block_boundary", format!("{pad}{AFTER}\n{tail}")) }
+        // the text after the directive is much longer than anything the generator will put there
+        _ => ("after_long_tail", format!("{head}// {AFTER}\n{}{tail}", long.repeat(30))),
     };
     let mut bytes = body.into_bytes();
     // occasionally make the file invalid UTF-8
@@ -160,6 +162,17 @@ fn gen_prior(rng: &mut Rng, gens: &[&Prepared], hist: &mut Report) -> Tree {
     let n_gen = rng.below(generated.len().min(8) + 1);
     for _ in 0..n_gen {
         let p = (*rng.pick(&generated)).clone();
+        // now and then the file is what a generation puts there, up to its trailing blanks (a checkout that strips or
+        // adds final newlines, a run that died one byte before the end)
+        if rng.chance(1, 8) {
+            let text = gens.iter().find_map(|g| g.outs.get(&p)).map(|c| match c { CodeSpec::Plain(s) => s.clone(), CodeSpec::Lib(a, _) => a.clone() });
+            if let Some(text) = text {
+                let v = match rng.below(3) { 0 => text.trim_end().to_string(), 1 => format!("{}\n\n", text.trim_end()), _ => format!("{} \n", text.trim_end()) };
+                hist.bump("content:generated_up_to_trailing_blanks");
+                t.insert(p, v.into_bytes());
+                continue;
+            }
+        }
         t.insert(p, gen_content(rng, hist));
     }
     let n_extra = rng.below(7);
